@@ -1,0 +1,56 @@
+//go:build verif
+
+// Contracts for package slottools (comment-only; read by /verif/vcgo, build tag verif).
+package slottools
+
+// ---- epoch arithmetic (C02) ----
+
+//@ func CalcEpochForSlot
+//@   mode int
+//@   pure
+//@   ensures result == slot / 432000
+//@   ensures result * 432000 <= slot && slot - result * 432000 < 432000
+//@   ensures result <= 42700796466920
+
+//@ func EpochForSlot
+//@   mode int
+//@   pure
+//@   ensures result == slot / 432000
+//@   ensures result == CalcEpochForSlot(slot)
+
+// Overflow condition: epoch*432000 + 431999 fits in 64 bits iff epoch <= 42700796466919
+// (2^64 = 42700796466920*432000 + 111616: for epoch 42700796466920 the start fits, the stop wraps to 320383).
+// (uint64 arithmetic in contracts wraps as in Go; absence of wrap is expressed by result0/432000 == epoch, result0 <= result1.)
+// The function has no guard, so the facts are stated under that bound; callers must establish it.
+//@ func CalcEpochLimits
+//@   mode int
+//@   ensures epoch <= 42700796466919 ==> result0 == epoch * 432000 && result0 % 432000 == 0 && result1 == result0 + 431999 && result1 % 432000 == 431999
+//@   ensures epoch <= 42700796466919 ==> result0 <= result1 && result1 - result0 == 431999
+//@   ensures epoch <= 42700796466919 ==> result0 / 432000 == epoch && result1 / 432000 == epoch
+//@   ensures epoch <= 42700796466919 ==> (forall s uint64 :: ((result0 <= s && s <= result1) <==> (s / 432000 == epoch)))
+//@   ensures epoch > 42700796466919 ==> result0 > result1 || result0 / 432000 != epoch
+
+//@ func EpochLimits
+//@   mode int
+//@   ensures epoch <= 42700796466919 ==> result0 == epoch * 432000 && result0 % 432000 == 0 && result1 == result0 + 431999 && result1 % 432000 == 431999
+//@   ensures epoch <= 42700796466919 ==> result0 / 432000 == epoch && result1 / 432000 == epoch
+//@   ensures epoch <= 42700796466919 ==> (forall s uint64 :: ((result0 <= s && s <= result1) <==> (s / 432000 == epoch)))
+
+// ---- ranges ----
+
+//@ func Uint64RangesHavePartialOverlapIncludingEdges
+//@   mode int
+//@   ensures r1[0] <= r1[1] && r2[0] <= r2[1] ==> (result <==> (r1[0] <= r2[1] && r2[0] <= r1[1]))
+//@   ensures r1[0] <= r1[1] && r2[0] <= r2[1] ==> (result <==> exists s uint64 :: r1[0] <= s && s <= r1[1] && r2[0] <= s && s <= r2[1])
+
+// ---- little-endian codec ----
+
+//@ func Uint64ToLEBytes
+//@   mode bv
+//@   ensures len(result) == 8 && fresh(result)
+//@   ensures forall i int :: 0 <= i && i < 8 ==> result[i] == byte(v >> (8*uint(i)))
+
+//@ func Uint64FromLEBytes
+//@   mode bv
+//@   requires len(buf) >= 8
+//@   ensures forall i int :: 0 <= i && i < 8 ==> byte(result >> (8*uint(i))) == buf[i]
